@@ -15,7 +15,7 @@ from lib.vlib import cq_list, cq_bool
 
 SETUP_BUILDS = [{"name": "c05"}]
 COQ_TARGETS = ["Gguf/Properties_C05.v", "Gguf/Corr.v"]
-HEADER = ("From Coq Require Import List NArith ZArith Bool Uint63.\nFrom V Require Import Common.Bytes Gguf.Model Gguf.Corr.\n"
+HEADER = ("From Coq Require Import List NArith ZArith Bool Uint63.\nFrom V Require Import Common.Bytes Gguf.Model Gguf.SeekerModel Gguf.Corr.\n"
           "Import ListNotations.\nOpen Scope N_scope.\n")
 M64 = 1 << 64
 
@@ -197,8 +197,15 @@ def gen_cases(ctx):
             klass, ts = "few-tensors", gen_tensors(rng, rng.choice([0, 1, 2]), True)
         elif r < 0.68:
             klass, ts = "aligned-sizes", gen_tensors(rng, rng.choice([3, 5]), False)
-        elif r < 0.74:
+        elif r < 0.71:
             klass, ts = "many-tensors", gen_tensors(rng, rng.choice([19, 20, 21, 22, 30, 45]), True)
+        elif r < 0.74:
+            # more than 20 tensors whose block numbers make the comparator a consistent order: the order is then determined
+            klass, ts = "many-consistent", gen_tensors(rng, rng.choice([21, 25, 33, 45]), True)
+            pool = rng.choice([[b"blk.%d.w" % k for k in (1, 2, 3, 7, 10)] + [b"output", b"token_embd"], [b"blk.0.a", b"blk.0.b", b"x", b"y", b"blk.-2.z"],
+                               [b"blk.0.a", b"blk.1.b", b"blk.2.c", b"blk.11.d"]])
+            for t in ts:
+                t["name"] = rng.choice(pool).hex()
         elif r < 0.80:
             klass, ts = "size-mismatch", gen_tensors(rng, rng.choice([1, 3, 4]), True, mismatch=True)
         else:
@@ -209,6 +216,35 @@ def gen_cases(ctx):
             kv += [x for x in gen_kv(rng, None, big) if x["k"] not in {y["k"] for y in kv}]
         ma = rng.choice([-1, -1, -1, 0, 0, 1, 2, 3, 1024, 5000]) if not big else rng.choice([-1, 0, 1024, 1100])
         cases.append({"op": "rt", "kv": kv, "tensors": ts, "max_array": ma, "file": rng.random() < 0.08, "klass": klass})
+    # Tensor.block (fmt.Sscanf "blk.%d."): exhaustive short names + boundary cases
+    a1 = bytes([0x30, 0x31, 0x39, 0x2b, 0x2d, 0x5f, 0x2e, 0x20, 0x0a, 0x0d, 0x78, 0xc2, 0xa0, 0x09])
+    cases.append({"op": "block_all", "prefix": b"blk.".hex(), "alpha": (a1[:11] if ctx.quick() else a1).hex(), "maxlen": 4, "klass": "block-exhaustive"})
+    cases.append({"op": "block_all", "prefix": "", "alpha": b"blk.0 ".hex(), "maxlen": 5, "klass": "block-exhaustive"})
+    cases.append({"op": "block_all", "prefix": b"blk.".hex(), "alpha": bytes([0xe2, 0x80, 0x81, 0x83, 0x9f, 0xa8, 0xe3, 0xe1, 0x9a, 0x35, 0x2e]).hex(), "maxlen": 4, "klass": "block-exhaustive"})
+    names = list(NAMES) + [b"blk.9223372036854775807.", b"blk.9223372036854775808.", b"blk.-9223372036854775808.", b"blk.-9223372036854775809.",
+                           b"blk.00000000000000000000000000012.x", b"blk.99999999999999999999999.", b"blk.\xe2\x80\x83 5.", b"blk.\xe3\x80\x805.", b"blk.\xe2\x805.", b"blk.5",
+                           b"blk.5x", b"blk.+.", b"blk.-0.", b"blk.\r\n5.", b"blk.\r5.", b"Blk.5.", b" blk.5.", b"blk .5.", b"blk..5.", b"blk.1_0.", b"blk.\xc2\x855.",
+                           b"blk.\xe1\x9a\x805.", b"blk.\xe2\x81\x9f7.w", b"blk.+7.a", b"blk.-7.a", b"blk.4294967296.", b"blk.\t\x0b\x0c 3."]
+    names += [b"blk." + rnd_str(rng, 6) + b"." for _ in range(40)]
+    cases.append({"op": "block", "names": [x.hex() for x in names], "klass": "block-names"})
+    # type.go: every file type number 0..44 (+ large), ParseFileType of its name and of other strings
+    for t in list(range(0, 45)) + [255, (1 << 32) - 1]:
+        cases.append({"op": "ftype", "t": str(t), "klass": "file-type"})
+    for sname in [b"", b"F32", b"f32", b"Q4_K_M", b"Q4_K_M ", b"unknown", b"Q4_2", b"Q4_3", b"BF16", b"bf16", b"IQ1_M", b"IQ1_MM", b"Q4_1_F16", b"F64", b"\xff"]:
+        cases.append({"op": "parse", "s": sname.hex(), "klass": "file-type"})
+    # buffer_seeker.go: random io.ReadFull / Seek sequences over small data and small buffers
+    for _ in range(60 if ctx.quick() else 1500):
+        n = rng.choice([0, 1, 5, 17, 40, 100])
+        data = bytes(rng.randrange(256) for _ in range(n))
+        ops = []
+        for _ in range(rng.randint(1, 12)):
+            if rng.random() < 0.5:
+                ops.append(["r", rng.choice([0, 1, 2, 3, 8, 16, 17, 33, n, n + 1])])
+            else:
+                wh = rng.choice([0, 1, 1, 1, 2])
+                off = rng.choice([0, 1, -1, 5, -5, n, -n, n + 3, 16, 31, 1 << 40, -(1 << 40), (1 << 63) - 1, -(1 << 63), (1 << 63) - n - 1, rng.randint(-50, 150)])
+                ops.append(["s", str(off), wh])
+        cases.append({"op": "bseek", "data": data.hex(), "bufsize": rng.choice([16, 16, 17, 32, 64, 32768]), "ops": ops, "klass": "buffered-seeker"})
     # exhaustive leaves
     for k in list(range(0, 45)) + [255, 256, 1 << 31, (1 << 32) - 1]:
         cases.append({"op": "leaf_kind", "kind": str(k), "klass": "leaf-kind"})
@@ -447,6 +483,21 @@ def render(c, o):
     op = c["op"]
     if "panic" in o or "harness_error" in o:
         return "false"
+    if op == "block_all":
+        return "chk_block_all %s %s %d %d %s" % (vlib.cq_bytes(bytes.fromhex(c["prefix"])), vlib.cq_bytes(bytes.fromhex(c["alpha"])), c["maxlen"], o["n"], o["hash"])
+    if op == "block":
+        return "forallb (fun p => chk_block (fst p) (snd p)) %s" % cq_list(["(%s, (%s)%%Z)" % (cq_bytes(bytes.fromhex(n)), b) for n, b in zip(c["names"], o["blocks"])], "(str * Z)")
+    if op == "ftype":
+        if o["tensor_type"] != o["name"]:
+            return "false"
+        return "chk_ftype %s %s (%s)%%Z" % (c["t"], cq_bytes(bytes.fromhex(o["name"])), o["parsed"])
+    if op == "parse":
+        return "chk_parse %s (%s)%%Z" % (cq_bytes(bytes.fromhex(c["s"])), o["parsed"])
+    if op == "bseek":
+        ops = cq_list(["SRead (%d)%%Z" % x[1] if x[0] == "r" else "SSeek (%s)%%Z %d" % (x[1], x[2]) for x in c["ops"]], "sop")
+        res = cq_list(["RRead %s %d" % (cq_bytes(bytes.fromhex(r["b"])), {"": 0, "eof": 1, "ueof": 2}.get(r["e"], 3)) if "b" in r else
+                       "RSeek (%s)%%Z %s" % (r["p"], cq_bool(r["ok"])) for r in o["res"]], "sres")
+        return "chk_bseek %s %s %s" % (cq_bytes(bytes.fromhex(c["data"])), ops, res)
     if op == "leaf_kind":
         return "chk_kind %s %s %s" % (c["kind"], o["ts"], o["bs"])
     if op == "leaf_pad":
@@ -490,11 +541,12 @@ def run(ctx, only=None):
                 "distinct = by canonical JSON of the case. Leaves (typeSize/blockSize per kind, ggufPadding per (offset mod a, a<=64)) exhaustively.")
     ctx.trusted = ["Coq 8.16.1 kernel + vm_compute", "hand-written model coq/Gguf/Model.v tied to fs/ggml/gguf.go+ggml.go by this differential run only",
                    "Go harness harness/cmd/c05 and overlay exports harness/overlay/fs/ggml/c05.go (add-only, build tag verif)",
-                   "python generator, monitor and renderer (props/c05.py)", "encoding/binary, bufio, bytes.Reader, slices.SortStableFunc (order taken as observed above 20 tensors)"]
+                   "python generator, monitor and renderer (props/c05.py)", "encoding/binary, bufio, bytes.Reader, slices.SortStableFunc (order taken as observed above 20 tensors when the comparator is inconsistent on the blocks present)"]
     ctx.assumptions = ["keys of the map are distinct (Go map); values/kinds/shape entries within their Go types (uint32/uint64); general.alignment, if present, is a uint32 > 0",
                        "every tensor's WriterTo writes exactly Tensor.Size() bytes", "the file is shorter than 2^63 bytes",
-                       "Tensor.block (Sscanf) is an oracle: block numbers are taken from the implementation"]
-    ctx.proof_stage(["Gguf"], "Gguf/Properties_C05.v", extra_targets=["Gguf/Corr.v"], expect_theorems=['C05_kv_roundtrip', 'C05_tensor_meta_roundtrip', 'C05_tensor_bytes_at_offset', 'C05_end_offset', 'C05_tensor_bytes_unrepaired_refuted'])
+                       "Tensor.block (fmt.Sscanf \"blk.%d.\") is modelled (block_of) and tied exhaustively on short names; slices.SortStableFunc is modelled as "
+                       "Go's insertion sort: exact up to 20 tensors and whenever the comparator is consistent on the block numbers present"]
+    ctx.proof_stage(["Gguf"], "Gguf/Properties_C05.v", extra_targets=["Gguf/Corr.v"], expect_theorems=['C05_kv_roundtrip', 'C05_tensor_meta_roundtrip', 'C05_tensor_bytes_at_offset', 'C05_end_offset', 'C05_tensor_bytes_unrepaired_refuted', 'C05_order_sorted', 'C05_comparator_transitive_refuted', 'C05_block_canonical', 'C05_buffered_seek_refines'])
     if not ctx.quick():
         ctx.coqchk(["V.Gguf.Properties_C05", "V.Gguf.Corr"])
     binp = ctx.go_build("c05")
@@ -524,6 +576,9 @@ def run(ctx, only=None):
                                                                "how": "feed the case (one JSON line) to build/bin/c05; python3 check.py C05 --replay <this file>"})
         else:
             ctx.note_case(strip(c), True, c["klass"])
+            if c["op"] == "block_all" and "n" in o:
+                ctx.cases += int(o["n"])
+                ctx.count("block-exhaustive-names", int(o["n"]))
         items.append(render(c, o))
     bad, log = ctx.coq_eval(HEADER, items, per_file=40 if ctx.quick() else 100)
     if bad is None:
